@@ -74,13 +74,21 @@ class ScriptedNode(elastic_transport.BaseNode):
         w.sticky = None
         kind = w.next_kind()
         head = method == "HEAD"
-        ndocs = 0
+        ndocs, ops = 0, []
         if target.split("?")[0].endswith("/_bulk") and body:
-            ndocs = len([l for l in body.split(b"\n") if l.strip()]) // 2
+            lines = [l for l in body.split(b"\n") if l.strip()]
+            ndocs = len(lines) // 2
+            # Elasticsearch keys every item of its answer by the action that the client wrote (index, create, ...)
+            for l in lines[0::2]:
+                try:
+                    ops.append(next(iter(json.loads(l))))
+                except Exception:
+                    ops.append("index")
         w.requests.append((method, target.split("?")[0], kind, ndocs))
-        return self._answer(kind, head, ndocs)
+        return self._answer(kind, head, ndocs, ops)
 
-    def _answer(self, kind, head, ndocs):
+    def _answer(self, kind, head, ndocs, ops=()):
+        op = lambda i: ops[i] if i < len(ops) else "index"  # noqa: E731
         if kind == "ctimeout":
             raise elastic_transport.ConnectionTimeout("Connection timed out", errors=(TimeoutError("read timed out"),))
         if kind == "cerror":
@@ -91,7 +99,7 @@ class ScriptedNode(elastic_transport.BaseNode):
             if head:
                 return self._resp(200)
             if ndocs:
-                items = [{"index": {"_index": "rally-metrics-2026-09", "_id": f"id{i}", "_version": 1, "result": "created", "status": 201}} for i in range(ndocs)]
+                items = [{op(i): {"_index": "rally-metrics-2026-09", "_id": f"id{i}", "_version": 1, "result": "created", "status": 201}} for i in range(ndocs)]
                 return self._resp(200, json.dumps({"took": 3, "errors": False, "items": items}).encode())
             return self._resp(200, json.dumps({"acknowledged": True, "hits": {"total": {"value": 0, "relation": "eq"}, "hits": []}}).encode())
         if kind == "badjson":
@@ -134,10 +142,10 @@ class ScriptedNode(elastic_transport.BaseNode):
             for i in range(ndocs):
                 s = statuses[i % len(statuses)]
                 if s < 300:
-                    items.append({"index": {"_index": "rally-metrics-2026-09", "_id": f"id{i}", "_version": 1, "result": "created", "status": s}})
+                    items.append({op(i): {"_index": "rally-metrics-2026-09", "_id": f"id{i}", "_version": 1, "result": "created", "status": s}})
                 else:
                     etype, reason = ERRORS[s]
-                    items.append({"index": {"_index": "rally-metrics-2026-09", "_id": f"id{i}", "status": s, "error": {"type": etype, "reason": reason}}})
+                    items.append({op(i): {"_index": "rally-metrics-2026-09", "_id": f"id{i}", "status": s, "error": {"type": etype, "reason": reason}}})
             return self._resp(200, json.dumps({"took": 3, "errors": True, "items": items}).encode())
         raise AssertionError(kind)
 
